@@ -574,7 +574,7 @@ class LMWorld:
         d = {k: "%s.%s" % (tag, k) for k in keys}
         var = "d%d" % self.nvars
         self.nvars += 1
-        self.script.append("%s = %r" % (var, d))
+        self.script.append(("%s = %r", (var, d)))
         if kind == "plain":
             real = dict(d)
             self.supplied.append((var, real, dict(d)))
@@ -588,21 +588,48 @@ class LMWorld:
         self.pairs.append((model, real))
         lvar = "n%d" % self.nvars
         self.nvars += 1
-        self.script.append("%s = LayeredMapping(%s, name=%r)" % (lvar, var, name))
+        self.script.append(("%s = LayeredMapping(%s, name=%r)", (lvar, var, name)))
         return real, model, lvar
 
 
+def lm_script(w):
+    return [fmt % args for fmt, args in w.script]
+
+
 def lm_violation(col, w, sig, what, got, want):
-    script = "; ".join(w.script)
+    lines = lm_script(w)
+    script = "; ".join(lines)
     col.violation("layered/%s :: %s :: %s" % (sig, what, script),
-                  {"history": list(w.script), "observation": what, "got": repr(got), "want": repr(want),
+                  {"history": lines, "observation": what, "got": repr(got), "want": repr(want),
                    "repro": "from formulaic.utils.layered_mapping import LayeredMapping; %s; print(%s)" % (script, what)},
                   sig=sig)
 
 
+def lm_light(col, w, h=-1):
+    """after every step: lookup (value + source layer name) of every probe key and the length of the mapping the
+    history is operating on, and the plain supplied layers; the complete set of reads follows at the end of the
+    history (every prefix of a history is itself an explored history, so every state gets the complete set)"""
+    real, model, var = w.handles[h]
+    keys = model.keys()
+    for k in PROBE:
+        want = model.find(k) if k in keys else (DEFAULT, None)
+        got = real.get_with_layer_name(k, DEFAULT)
+        if got != want:
+            lm_violation(col, w, "layer-name" if got[0] == want[0] else "getitem",
+                         "%s.get_with_layer_name(%r, default)" % (var, k), got, want)
+    if len(real) != len(keys):
+        lm_violation(col, w, "len", "len(%s)" % var, len(real), len(keys))
+    for desc, obj, snap in (w.supplied if h == -1 else ()):
+        if type(obj) is dict and obj != snap:
+            lm_violation(col, w, "layer-mutated", "supplied layer %s" % desc, obj, snap)
+
+
 def lm_reads(col, w):
-    """every read operation on every live mapping, compared with the model; supplied layers untouched"""
-    for real, model, var in w.handles:
+    """every read operation on the mapping the history operates on (and lookups + len on the mappings it was derived
+    from, which must be unaffected), compared with the model; supplied layers untouched"""
+    for h in range(len(w.handles) - 1):
+        lm_light(col, w, h)
+    for real, model, var in w.handles[-1:]:
         keys = model.keys()
         for k in PROBE:
             f = model.find(k) if k in keys else None
@@ -693,11 +720,11 @@ def lm_apply(col, w, ev, step):
     real, model, var = w.handles[-1]
     if ev[0] == "set":
         v = "w%d.%s" % (step, ev[1])
-        w.script.append("%s[%r] = %r" % (var, ev[1], v))
+        w.script.append(("%s[%r] = %r", (var, ev[1], v)))
         real[ev[1]] = v
         model.set(ev[1], v)
     elif ev[0] == "del":
-        w.script.append("del %s[%r]" % (var, ev[1]))
+        w.script.append(("del %s[%r]", (var, ev[1])))
         want = model.delete(ev[1])
         try:
             del real[ev[1]]
@@ -714,10 +741,10 @@ def lm_apply(col, w, ev, step):
         elif not want:
             col.count("del-keyerror-" + ("lower-layer-key" if model.contains(ev[1]) else "absent-key"))
     elif ev[0] == "named":
-        w.script.append("%s.named_layers" % var)
+        w.script.append(("%s.named_layers", (var,)))
         lm_named(col, w)
     elif ev[0] == "wl-empty":
-        w.script.append("%s.with_layers(None)" % var)
+        w.script.append(("%s.with_layers(None)", (var,)))
         r1, r2 = real.with_layers(), real.with_layers(None, prepend=False, name="ignored")
         if r1 is not real or r2 is not real:
             lm_violation(col, w, "with-layers", "%s.with_layers() is %s" % (var, var), "new object", "self")
@@ -734,8 +761,8 @@ def lm_apply(col, w, ev, step):
             reals, models, lvars = [a[0], None, b[0]], [a[1], None, b[1]], [a[2], "None", b[2]]
             name = model.name if inplace else None
         nvar = var if inplace else "m%d" % len(w.handles)
-        w.script.append("%s = %s.with_layers(%s, prepend=%s, inplace=%s, name=%r)"
-                        % (nvar, var, ", ".join(lvars), prepend, inplace, name))
+        w.script.append(("%s = %s.with_layers(%s, prepend=%s, inplace=%s, name=%r)",
+                         (nvar, var, ", ".join(lvars), prepend, inplace, name)))
         r = real.with_layers(*reals, prepend=prepend, inplace=inplace, name=name)
         m = model.with_layers(models, prepend=prepend, inplace=inplace, name=name)
         if inplace:
@@ -753,9 +780,10 @@ def lm_build(c, ctx, w):
     nl = c.upto(ctx["max_layers"])
     top = c.pick(ctx["top_names"])
     reals, models, lvars = [], [], []
-    if ctx.get("matrices") and nl == 3:
-        kinds = [c.pick(ctx["kinds"]) for _ in range(3)]
-        mat = c.pick(ctx["matrices"])
+    if nl > ctx["full_upto"]:
+        # covering family: every per-key presence pattern over the nl layers occurs for every key
+        kinds = [c.pick(ctx["kinds"]) for _ in range(nl)]
+        mat = c.pick(COVER[nl])
         layers = list(zip(kinds, mat))
     else:
         layers = [(c.pick(ctx["kinds"]), c.pick(SUBSETS)) for _ in range(nl)]
@@ -764,7 +792,7 @@ def lm_build(c, ctx, w):
         reals.append(r), models.append(m), lvars.append(v)
     if nl % 2:  # the constructor drops None layers
         reals.insert(1, None), models.insert(1, None), lvars.insert(1, "None")
-    w.script.append("m0 = LayeredMapping(%s%sname=%r)" % (", ".join(lvars), ", " if lvars else "", top))
+    w.script.append(("m0 = LayeredMapping(%s%sname=%r)", (", ".join(lvars), ", " if lvars else "", top)))
     real = LayeredMapping(*reals, name=top)
     model = R.MLM(models, name=top)
     w.pairs.append((model, real))
@@ -779,27 +807,31 @@ def drv_lm(c, ctx, col):
     nl = lm_build(c, ctx, w)
     if nl:
         col.interesting()
-    lm_reads(col, w)
     for step in range(nops):
         ev = c.pick(events)
         lm_apply(col, w, ev, step)
-        lm_reads(col, w)
-        col.state(repr([m.canon() for _, m, _ in w.handles]))
+        lm_light(col, w)
         col.count("steps")
     col.state(repr([m.canon() for _, m, _ in w.handles]))
-    lm_named(col, w)     # the cache (if an earlier event populated it) must not be stale
     lm_reads(col, w)
-    col.sample({"history": list(w.script)})
+    lm_named(col, w)     # the cache (if an earlier event populated it) must not be stale
+    lm_light(col, w)     # ... and populating it must not disturb lookups
+    if len(col.samples) < col.max_samples:
+        col.sample({"history": lm_script(w)})
 
 
-# every 3-bit presence pattern appears for every key across these 8 matrices (rows = layers, top first)
-def _matrices():
-    pats = list(range(8))
+def _cover(nl, offsets):
+    """2**nl matrices (rows = layers, top first) such that the presence pattern of each key over the layers takes
+    every one of the 2**nl values exactly once across the family"""
+    n = 2 ** nl
     out = []
-    for j in range(8):
-        cols = [pats[j], pats[(j + 1) % 8], pats[(j + 3) % 8]]  # pattern of k1, k2, k3 over the three layers
-        out.append([[k for ki, k in enumerate(KEYS) if cols[ki] >> li & 1] for li in range(3)])
+    for j in range(n):
+        cols = [(j + o) % n for o in offsets]  # pattern of k1, k2, k3 over the layers
+        out.append([[k for ki, k in enumerate(KEYS) if cols[ki] >> li & 1] for li in range(nl)])
     return out
+
+
+COVER = {1: _cover(1, (0, 1, 1)), 2: _cover(2, (0, 1, 2)), 3: _cover(3, (0, 1, 3))}
 
 
 # =========================================================================================================
@@ -821,18 +853,21 @@ def sf_obs(f):
 
 T5 = [("1",), ("a",), ("b",), ("a", "b"), ("a", "b", "c")]
 T6 = T5 + [("c", "a")]
-SLICES = [slice(None), slice(1, None), slice(None, None, -1), slice(0, 2), slice(None, None, 2), slice(-2, None)]
+TPROBE = [("1",), ("b", "a"), ("a", "c")]
+SLICES = [slice(1, None), slice(None, None, -1), slice(0, 2), slice(None, None, 2)]
 
 
-def sf_events(terms, thorough):
+def sf_events(terms, wide, extra_index=False):
     ev = []
-    for i in (0, 1, -1) + ((7,) if thorough else ()):
+    for i in ((0, 1, -1) if wide else (0, -1)) + ((7,) if extra_index else ()):
         ev += [("insert", i, t) for t in terms]
     ev += [("append", t) for t in terms]
-    for i in (0, -1) + ((1,) if thorough else ()):
+    for i in (0, -1) + ((1,) if extra_index else ()):
         ev += [("set", i, t) for t in terms]
-    ev += [("del", i) for i in (0, -1, 1)]
-    ev += [("extend",), ("reverse",), ("set-slice",), ("del-slice",), ("pop",), ("remove",), ("iadd",)]
+    ev += [("del", i) for i in ((0, -1, 1) if wide else (0, -1))]
+    ev += [("extend",), ("reverse",), ("del-slice",)]
+    if wide:
+        ev += [("set-slice",), ("pop",), ("remove",), ("iadd",)]
     return ev
 
 
@@ -845,19 +880,27 @@ def sf_violation(col, script, mode, sig, what, got, want):
                             "%s; print(f)" % s}, sig=sig)
 
 
-def sf_reads(col, script, mode, f, model):
+def sf_light(col, script, mode, f, model):
+    """after every step: the exact content and the ordering invariant"""
     got = sf_obs(f)
     if got != model:
         sf_violation(col, script, mode, "sequence-content", "list(f)", [R.t_str(t) for t in got], [R.t_str(t) for t in model])
         return False
     if not R.sf_ordered(got, mode):
         sf_violation(col, script, mode, "ordering-invariant", "terms ordered per %r" % mode, [R.t_str(t) for t in got], "ordered")
+    return True
+
+
+def sf_reads(col, script, mode, f, model):
+    """every read operation (at the end of each history; every prefix of a history is itself an explored history)"""
+    if not sf_light(col, script, mode, f, model):
+        return False
     if len(f) != len(model):
         sf_violation(col, script, mode, "len", "len(f)", len(f), len(model))
     if not (f == [mk_term(t) for t in model]) or not (f == [R.t_str(t) for t in model]):
         sf_violation(col, script, mode, "equality", "f == list of its terms", False, True)
     n = len(model)
-    for i in (0, -1, 1, n - 1, n, -n - 1):
+    for i in (0, -1, n - 1, n, -n - 1):
         try:
             g = ("ok", tuple(x.expr for x in f[i].factors))
         except IndexError:
@@ -874,7 +917,7 @@ def sf_reads(col, script, mode, f, model):
         if type(g) is not SimpleFormula or g.ordering is not f.ordering or sf_obs(g) != wnt:
             sf_violation(col, script, mode, "slice-read", "f[%s:%s:%s]" % (sl.start, sl.stop, sl.step),
                          (type(g).__name__, [R.t_str(t) for t in sf_obs(g)]), [R.t_str(t) for t in wnt])
-    for t in T6:
+    for t in TPROBE:
         has = any(R.t_same(t, m) for m in model)
         if (mk_term(t) in f) != has or f.count(mk_term(t)) != sum(1 for m in model if R.t_same(t, m)):
             sf_violation(col, script, mode, "contains", "%s in f / f.count" % R.t_str(t), mk_term(t) in f, has)
@@ -896,7 +939,7 @@ def drv_sf(c, ctx, col):
     model = R.sf_reorder(init, mode)
     if f.ordering is not OrderingMethod(mode):
         sf_violation(col, script, mode, "ordering-attr", "f.ordering", f.ordering, mode)
-    if not sf_reads(col, script, mode, f, model):
+    if not sf_light(col, script, mode, f, model):
         return
     if nops:
         col.interesting()
@@ -989,9 +1032,10 @@ def drv_sf(c, ctx, col):
             new = now
         model = new
         col.count("steps")
-        if not sf_reads(col, script, mode, f, model):
+        if not sf_light(col, script, mode, f, model):
             return
-        col.state(mode + repr(model))
+    col.state(mode + repr(model))
+    sf_reads(col, script, mode, f, model)
     col.sample({"ordering": mode, "history": list(script), "result": [R.t_str(t) for t in model]})
 
 
@@ -1066,24 +1110,34 @@ def subchecks(tier, seed):
                         bounds={"operands": "3 nodes, nesting depth <= 2, <= 2 nodes each"}))
     # ---- LayeredMapping
     full, reduced = lm_events(True), lm_events(False)
-    subs.append(Sub("layered-stacks", drv_lm,
-                    {"events": full, "max_ops": 1 if quick else 2, "max_layers": 3, "kinds": KINDS, "top_names": [None, "t"]},
-                    shard_depth=4,
-                    bounds={"layers": "0..3", "layer_kinds": KINDS, "keys_per_layer": "every subset of k1,k2,k3",
-                            "top_name": [None, "t"], "events": len(full), "history": "<= %d" % (1 if quick else 2)}))
-    subs.append(Sub("layered-histories", drv_lm,
-                    {"events": reduced, "max_ops": 3 if quick else 4, "max_layers": 3, "kinds": ["plain", "lm:x"],
-                     "top_names": [None], "matrices": _matrices()},
-                    shard_depth=4,
-                    bounds={"layers": "0..2 with every key subset; 3 layers with 8 presence matrices covering every per-key pattern",
-                            "layer_kinds": ["plain", "lm:x"], "events": len(reduced), "history": "<= %d" % (3 if quick else 4)}))
+
+    def lm_sub(name, events, max_ops, full_upto, kinds, tops):
+        subs.append(Sub(name, drv_lm, {"events": events, "max_ops": max_ops, "max_layers": 3, "full_upto": full_upto,
+                                       "kinds": kinds, "top_names": tops}, shard_depth=4,
+                        bounds={"layers": "0..3", "layer_kinds": kinds, "top_name": tops,
+                                "keys_per_layer": "every subset of k1,k2,k3 for stacks of <= %d layers; for taller stacks the "
+                                                  "2**n covering matrices (every per-key presence pattern for every key)" % full_upto,
+                                "mutating_events": len(events), "history": "<= %d events" % max_ops}))
+    if quick:
+        lm_sub("layered-stacks", full, 1, 2, KINDS, [None, "t"])
+        lm_sub("layered-histories", reduced, 3, 1, ["plain", "lm:x"], [None])
+    else:
+        lm_sub("layered-stacks", full, 1, 3, KINDS, [None, "t"])
+        lm_sub("layered-stacks-2", full, 2, 2, KINDS, [None, "t"])
+        lm_sub("layered-histories", reduced, 4, 1, ["plain", "lm:x"], [None])
     # ---- SimpleFormula
-    terms = T5 if quick else T6
-    ev = sf_events(terms, not quick)
-    inits = [(), (("a", "b"), ("1",), ("b",), ("a",))] if quick else [(), (("a", "b"), ("1",), ("b",), ("c", "a"), ("a",))]
-    subs.append(Sub("formula-sequence", drv_sf, {"events": ev, "max_ops": 3 if quick else 4, "inits": inits}, shard_depth=4,
-                    bounds={"orderings": ["degree", "none", "sort"], "terms": [R.t_str(t) for t in terms], "events": len(ev),
-                            "history": "<= %d" % (3 if quick else 4), "initial_formulas": [[R.t_str(t) for t in i] for i in inits]}))
+    inits = [(), (("a", "b"), ("1",), ("b",), ("c", "a"), ("a",))]
+
+    def sf_sub(name, ev, terms, max_ops):
+        subs.append(Sub(name, drv_sf, {"events": ev, "max_ops": max_ops, "inits": inits}, shard_depth=4,
+                        bounds={"orderings": ["degree", "none", "sort"], "terms": [R.t_str(t) for t in terms], "events": len(ev),
+                                "history": "<= %d events" % max_ops, "initial_formulas": [[R.t_str(t) for t in i] for i in inits]}))
+    if quick:
+        sf_sub("formula-sequence", sf_events(T5, False), T5, 3)
+        sf_sub("formula-sequence-wide", sf_events(T6, True), T6, 2)
+    else:
+        sf_sub("formula-sequence", sf_events(T5, False), T5, 4)
+        sf_sub("formula-sequence-wide", sf_events(T6, True, True), T6, 3)
     # ---- OrderedSet
     subs.append(Sub("ordered-set", drv_os, {"items": ["x", "y", "z"] if quick else ["x", "y", "z", 1], "n": 3 if quick else 4},
                     shard_depth=2, bounds={"items": 3 if quick else 4, "max_sequence_length": 3 if quick else 4}))
